@@ -32,8 +32,13 @@ RULES = {
     "annotated as returning an Iterator) are chosen and built without looking at the current contents: no condition in the "
     "method reads through `self`, and nothing derived from `self` is materialised (list/tuple/sorted …) - a decision or "
     "a copy taken before iteration starts is stale after the first edit",
+    "R8": "boxes leave the set only through erase(): every method of the linked set (other than the constructor) that takes entries out "
+    "of the id→box map (del / pop / clear / rebinding), lowers or resets `_length`, or points the root at itself calls `<box>.erase()` - "
+    "for each removed box, i.e. in a loop when more than one box goes (clear(), rebinding, `_length = 0`): erase() is what marks a "
+    "box for the cursors parked on it; a bulk reset that skips it leaves iterators walking the stale chain and yielding nodes that "
+    "no longer belong to the graph",
 }
-FLOORS = {"R1": 3, "R2": 4, "R3": 8, "R4": 3, "R5": 1, "R6": 5, "R7": 6}
+FLOORS = {"R1": 3, "R2": 4, "R3": 8, "R4": 3, "R5": 1, "R6": 5, "R7": 6, "R8": 1}
 EXPLANATION = (
     "Checks the structural invariants the tombstone scheme of the doubly linked node list depends on: who writes "
     "which link, control dependence of every yield on the erased test, paired updates of length and map (CFG "
@@ -155,16 +160,20 @@ def rule_r3(ctx, rule="R3"):
             for a in lw:
                 an = cfg.node_of(a.stmt)[0]
                 # some map write on every normal path through the length write
-                M = {cfg.node_of(m.stmt)[0].id for m in mw}
+                M = {x.id for m in mw for x in (cfg.node_of(m.stmt) or cfg.nodes_containing(m.call if getattr(m, 'call', None) is not None else m.stmt))[:1]}
                 before = cfg.all_paths_through(cfg.entry, M, {an.id}, exc=False)
                 after = cfg.all_paths_through(an, M, {cfg.exit.id}, exc=False)
                 ok = ok and (before or after)
             for m in mw:
-                mn = cfg.node_of(m.stmt)[0]
+                mn = (cfg.node_of(m.stmt) or cfg.nodes_containing(m.call if getattr(m, 'call', None) is not None else m.stmt))[0]
                 L = {cfg.node_of(a.stmt)[0].id for a in lw}
                 ok = ok and (cfg.all_paths_through(cfg.entry, L, {mn.id}, exc=False) or cfg.all_paths_through(mn, L, {cfg.exit.id}, exc=False))
             # direction agreement: += 1 with a store, -= 1 with a delete
             for a in lw:
+                if isinstance(a.stmt, ast.Assign) and isinstance(a.stmt.value, ast.Constant) and a.stmt.value.value == 0:
+                    # a reset of the whole set: length 0 goes with an emptied (or fresh) map (that every box is erased is R8's)
+                    ok = ok and all((m.kind == "mutcall" and m.method == "clear") or m.kind == "store" for m in mw)
+                    continue
                 inc = isinstance(a.stmt, ast.AugAssign) and isinstance(a.stmt.op, ast.Add)
                 kinds = {m.kind for m in mw}
                 ok = ok and ((inc and kinds == {"substore"}) or (not inc and kinds <= {"subdel", "mutcall"}))
@@ -439,8 +448,57 @@ def rule_r7(ctx):
     ctx.require(n >= 6, "iterator-returning methods of Graph / Function / GraphView not found")
 
 
+def rule_r8(ctx):
+    dl = ctx.repo.cls(f"{LL}:DoublyLinkedSet")
+    n = 0
+    for f in dl.methods.values():
+        if f.name == "__init__" or isinstance(f.node, ast.Lambda):
+            continue
+        single, bulk = [], []
+        for w in field_writes(f):
+            if norm(w.recv) != "self":
+                continue
+            if w.field == "_value_ids_to_boxes":
+                if w.kind in ("subdel",) or (w.kind == "mutcall" and w.method in ("pop",)):
+                    single.append(w)
+                elif (w.kind == "mutcall" and w.method in ("clear", "popitem")) or w.kind == "store":
+                    bulk.append(w)
+            if w.field == "_length":
+                st = w.stmt
+                if isinstance(st, ast.AugAssign) and isinstance(st.op, ast.Sub):
+                    single.append(w)
+                elif isinstance(st, ast.Assign):
+                    bulk.append(w)
+        # the root pointed at itself: <root>.next = <root> / <root>.prev = <root>
+        for w in field_writes(f):
+            if w.field in ("next", "prev") and w.kind == "store" and isinstance(w.stmt, ast.Assign) and norm(w.stmt.value) == norm(w.recv):
+                bulk.append(w)
+        if not single and not bulk:
+            continue
+        n += 1
+        erases = [c for c in calls_in(f) if isinstance(c.func, ast.Attribute) and c.func.attr == "erase" and not c.args]
+        in_loop = [c for c in erases if any(isinstance(a, (ast.For, ast.While)) for a in _ancestors(c, f.node))]
+        ok = bool(erases) and (not bulk or bool(in_loop))
+        first = (bulk or single)[0]
+        ctx.check("R8", f"{f.local}: boxes taken out of the set are erased", ok, f, first.stmt,
+                  f"`{norm(first.stmt)[:70]}` takes {'every box' if bulk else 'a box'} out of the set without {'erasing each of them' if bulk else 'erasing it'}: the boxes keep their values "
+                  "and their prev/next chain, so an iterator parked on or before them goes on yielding nodes that are no longer in the graph (len() is 0 and the "
+                  "nodes have graph None)",
+                  how="methods that shrink the id→box map / the length / reset the root call <box>.erase() (in a loop for bulk forms)",
+                  construct=f"boxes leave the set without erase() in {f.local}")
+    ctx.require(n >= 1, "no method of DoublyLinkedSet takes boxes out of the set (remove expected)")
+
+
+def _ancestors(n, stop):
+    p = getattr(n, "_parent", None)
+    while p is not None and p is not stop:
+        yield p
+        p = getattr(p, "_parent", None)
+
+
 def run(ctx):
     rule_r5(ctx)
+    rule_r8(ctx)
     rule_r7(ctx)
     rule_r6(ctx)
     rule_r1(ctx)
